@@ -325,7 +325,8 @@ void ClipperOffset::OffsetPoint(Group& group, const Path64& path, size_t j, size
 				std::llround(co.norms[k].x * 1000), std::llround(co.norms[k].y * 1000),
 				std::llround(co.norms[j].x * 1000), std::llround(co.norms[j].y * 1000),
 				std::llround(co.group_delta_ * 1000), static_cast<long long>(co.join_type_),
-				static_cast<long long>(co.end_type_), std::llround(co.miter_limit_ * 1000), 0, 0, 0 };
+				static_cast<long long>(co.end_type_), std::llround(co.miter_limit_ * 1000),
+				std::llround(co.arc_tolerance_ * 1000), std::llround(co.steps_per_rad_ * 1000), 0 };
 			std::vector<long long> pts;
 			for (size_t i = n0; i < co.path_out.size(); ++i) { pts.push_back(co.path_out[i].x); pts.push_back(co.path_out[i].y); }
 			verif::offset_fn(v, pts.data(), static_cast<int>(pts.size() / 2));
@@ -409,6 +410,24 @@ void ClipperOffset::OffsetOpenJoined(Group& group, const Path64& path)
 
 void ClipperOffset::OffsetOpenPath(Group& group, const Path64& path)
 {
+#ifdef CLIPPER2_VERIF
+	// reports the points appended for an end cap: same record as for a join, last element 1 (start cap) or 2 (end cap),
+	// 'prev' is the neighbouring vertex of the end point
+	auto verif_cap = [this, &path](size_t end_idx, size_t nb_idx, size_t n0, long long which)
+	{
+		if (!verif::offset_fn) return;
+		const long long v[15] = { path[nb_idx].x, path[nb_idx].y, path[end_idx].x, path[end_idx].y,
+			std::llround(norms[end_idx].x * 1000), std::llround(norms[end_idx].y * 1000),
+			std::llround(norms[end_idx].x * 1000), std::llround(norms[end_idx].y * 1000),
+			std::llround(group_delta_ * 1000), static_cast<long long>(join_type_),
+			static_cast<long long>(end_type_), std::llround(miter_limit_ * 1000),
+			std::llround(arc_tolerance_ * 1000), std::llround(steps_per_rad_ * 1000), which };
+		std::vector<long long> pts;
+		for (size_t i = n0; i < path_out.size(); ++i) { pts.push_back(path_out[i].x); pts.push_back(path_out[i].y); }
+		verif::offset_fn(v, pts.data(), static_cast<int>(pts.size() / 2));
+	};
+	const size_t verif_n0 = path_out.size();
+#endif
 	// do the line start cap
 	if (deltaCallback64_) group_delta_ = deltaCallback64_(path, norms, 0, 0);
 
@@ -431,6 +450,9 @@ void ClipperOffset::OffsetOpenPath(Group& group, const Path64& path)
 	}
 
 	size_t highI = path.size() - 1;
+#ifdef CLIPPER2_VERIF
+	verif_cap(0, highI > 0 ? 1 : 0, verif_n0, 1);
+#endif
 	// offset the left side going forward
 	for (Path64::size_type j = 1, k = 0; j < highI; k = j, ++j)
 		OffsetPoint(group, path, j, k);
@@ -441,6 +463,9 @@ void ClipperOffset::OffsetOpenPath(Group& group, const Path64& path)
 	norms[0] = norms[highI];
 
 	// do the line end cap
+#ifdef CLIPPER2_VERIF
+	const size_t verif_n1 = path_out.size();
+#endif
 	if (deltaCallback64_)
 		group_delta_ = deltaCallback64_(path, norms, highI, highI);
 
@@ -462,6 +487,9 @@ void ClipperOffset::OffsetOpenPath(Group& group, const Path64& path)
 		}
 	}
 
+#ifdef CLIPPER2_VERIF
+	verif_cap(highI, highI > 0 ? highI - 1 : 0, verif_n1, 2);
+#endif
 	for (size_t j = highI -1, k = highI; j > 0; k = j, --j)
 		OffsetPoint(group, path, j, k);
     solution->emplace_back(path_out);
